@@ -25,11 +25,40 @@ const (
 	evRead
 	evWrite
 	evCallout
+	// the two release events when they come from a `defer` (appended at the end of the function's trace): printed
+	// like the plain ones - the lock model does not tell them apart - and looked at by calloutsUnderDeferredUnlock
+	evRUnlockDeferred
+	evUnlockDeferred
 )
 
-var evNames = [...]string{"rlock", "runlock", "lock", "unlock", "read", "write", "callout"}
+var evNames = [...]string{"rlock", "runlock", "lock", "unlock", "read", "write", "callout", "runlock", "unlock"}
 
-func (e Ev) isLockEvent() bool { return e <= evUnlock }
+func (e Ev) isLockEvent() bool { return e <= evUnlock || e == evRUnlockDeferred || e == evUnlockDeferred }
+
+// calloutsUnderDeferredUnlock: in trace t, is every critical section that contains a call to user code (a callout:
+// a filter, a callback, a verifier, a discharger - code that may panic) closed by a DEFERRED release? A section
+// closed by an explicit RUnlock/Unlock keeps its lock when the callout panics and the caller recovers.
+func calloutsUnderDeferredUnlock(t []Ev) bool {
+	open, sawCallout := false, false
+	for _, e := range t {
+		switch e {
+		case evRLock, evLock:
+			open, sawCallout = true, false
+		case evCallout:
+			if open {
+				sawCallout = true
+			}
+		case evRUnlock, evUnlock:
+			if open && sawCallout {
+				return false
+			}
+			open = false
+		case evRUnlockDeferred, evUnlockDeferred:
+			open = false
+		}
+	}
+	return true
+}
 
 // mutexMethods maps the methods of sync.RWMutex that are understood to events.
 var mutexMethods = map[string]Ev{"RLock": evRLock, "RUnlock": evRUnlock, "Lock": evLock, "Unlock": evUnlock}
@@ -351,6 +380,7 @@ func genBundleLocks(ld *loader) []byte {
 	}
 
 	var out []lockEntry
+	var deferred []kvb
 	var notes []string
 	for i, e := range entries {
 		if i > 0 && entries[i-1].name == e.name {
@@ -378,6 +408,11 @@ func genBundleLocks(ld *loader) []byte {
 			}
 			out = append(out, lockEntry{n, t})
 		}
+		safe := true
+		for _, t := range raw {
+			safe = safe && calloutsUnderDeferredUnlock(t)
+		}
+		deferred = append(deferred, kvb{e.name, safe})
 	}
 
 	sharesM, sharesT := a.bundleLiterals()
@@ -419,6 +454,8 @@ func genBundleLocks(ld *loader) []byte {
 	}
 	leanList(&sb, "bundleSharesMutex", "List (String × Bool)", pairs(sharesM))
 	leanList(&sb, "bundleSharesTokens", "List (String × Bool)", pairs(sharesT))
+	sb.WriteString("-- per entry point: every critical section that calls user code (callout) is released by a deferred unlock\n")
+	leanList(&sb, "bundleCalloutsUnderDeferredUnlock", "List (String × Bool)", pairs(deferred))
 	sb.WriteString("end Macaroon.Generated\n")
 	return []byte(sb.String())
 }
